@@ -521,6 +521,11 @@ struct Exec {
                 if (it != seen.end()) res.fail("generator-output-repeats", std::string(kind_name[op.kind]), std::string(kind_name[op.kind]) + " (op " + std::to_string(i) + ") produced the same bytes as op " + std::to_string(it->second) + " of the same execution", (int) i);
                 seen[key] = i;
             }
+            // 32-bit outputs: two of them being exactly 0 in one execution has probability 2^-64 for a working generator
+            size_t zero_words = 0;
+            for (size_t i = 0; i < plan.ops.size(); i++)
+                if (plan.ops[i].kind == K_RANDOM && base.ops[i].out.size() == 4 && all_zero(base.ops[i].out.data(), 4)) zero_words++;
+            if (!res.violated && zero_words >= 2) res.fail("generator-output-degenerate", "random/internal", std::to_string(zero_words) + " calls of randombytes_random() in one execution returned exactly 0", 0);
             res.count("probe.internal_no_repeat_checked");
         }
         if (!res.violated) {
@@ -671,6 +676,7 @@ struct C18 {
         if (n < 2) { if (r.chance(1, 2)) put32(op.seg, r.u32()); return; }
         uint32_t min = (uint32_t) ((((uint64_t) 1) << 32) % n);
         unsigned rejected = min ? (unsigned) r.below(6) : 0;
+        if (min && r.below(40) == 0) rejected = (unsigned) r.pick<unsigned>({31, 32, 63, 64, 65, 127, 128, 255, 256, 300}); // a long unlucky streak is still only a streak
         for (unsigned i = 0; i < rejected; i++) {
             unsigned w = (unsigned) r.below(4);
             put32(op.seg, w == 0 ? min - 1 : w == 1 ? 0 : w == 2 ? min / 2 : (uint32_t) r.below(min));
